@@ -345,3 +345,15 @@ func init() {
 	mutant("full-match-on-either", "hpack-table-accounting", "hpack.go", "		if fullMatch = bytes.Equal(hf.key, hf2.key) && bytes.Equal(hf.value, hf2.value); fullMatch {", "		if fullMatch = bytes.Equal(hf.key, hf2.key) || bytes.Equal(hf.value, hf2.value); fullMatch {")
 	mutant("size-update-limit-not-stored", "hpack-table-accounting", "hpack.go", "	hp.maxTableSizeSettings = size\n", "")
 }
+
+func init() {
+	mutant("peek-bounds-conjunction", "hpack-table-index", "hpack.go", "	if index < 0 || index >= len(table) {", "	if index < 0 && index >= len(table) {")
+	mutant("dec-dispatch-second-octet", "dec-effects", "hpack.go", "	c = b[0]\n", "	c = b[1]\n")
+	mutant("dec-int-error-swallowed", "dec-effects", "hpack.go", "		if b, n, err = readInt(7, b); err != nil {", "		if b, n, err = readInt(7, b); err == nil {")
+	mutant("dec-one-octet-value-refused", "dec-effects", "hpack.go", "		// Reading value\n		if err == nil {\n			if len(b) == 0 {\n				// The field is cut short: its value is in the bytes that have\n				// not arrived yet.\n				return b, ErrUnexpectedSize\n			}\n\n			scratch := acquireScratch()\n			dst := *scratch\n\n			b, dst, err = readString(dst[:0], b)\n			if err == nil {\n				hf.SetValueBytes(dst)\n				// add", "		// Reading value\n		if err == nil {\n			if len(b) == 1 {\n				// The field is cut short: its value is in the bytes that have\n				// not arrived yet.\n				return b, ErrUnexpectedSize\n			}\n\n			scratch := acquireScratch()\n			dst := *scratch\n\n			b, dst, err = readString(dst[:0], b)\n			if err == nil {\n				hf.SetValueBytes(dst)\n				// add")
+	mutant("readstring-length-error-ignored", "hpack-primitives", "hpack.go", "	b, n, err := readInt(7, b)\n	if err != nil {\n		return b, dst, err\n	}\n", "	b, n, err := readInt(7, b)\n")
+	mutant("readstring-decode-error-ignored", "hpack-primitives", "hpack.go", "	if err != nil {\n		return b, nil, err\n	}\n\n	b = b[n:]", "	if err == nil {\n		return b, nil, err\n	}\n\n	b = b[n:]")
+	mutant("appendstring-dirty-scratch", "hpack-primitives", "hpack.go", "		b = HuffmanEncode((*scratch)[:0], src)", "		b = HuffmanEncode((*scratch)[:1], src)")
+	mutant("append-header-field-dropped", "enc-entry-points", "hpack.go", "	h.rawHeaders = hp.AppendHeader(h.rawHeaders, hf, store)\n", "	_ = hp.AppendHeader(h.rawHeaders, hf, store)\n")
+	mutant("size-update-pattern", "enc-entry-points", "hpack.go", "		dst = appendInt(append(dst, 0x20), 5, uint64(hp.maxTableSize))", "		dst = appendInt(append(dst, 0x20), 4, uint64(hp.maxTableSize))")
+}
